@@ -77,6 +77,9 @@ pub const F_NUMS: &[(&str, &str)] = &[
     ("i:1000000", "1000000usize"),
     ("i:-170141183460469231731687303715884105728", "i128::MIN"),
     ("i:999", "999u16"),
+    ("f64:36028797018963968", "36028797018963968f64"),
+    ("f64:9223372036854775808", "9223372036854775808f64"),
+    ("f64:-72057594037927952", "-72057594037927952f64"),
 ];
 pub const F_DATES: &[(i32, u8, u8)] = &[(2024, 2, 29), (1999, 12, 31), (1970, 1, 2), (1, 1, 1), (2023, 7, 4)];
 pub const F_TIMES: &[(u8, u8, u8)] = &[(14, 34, 28), (0, 0, 0), (23, 59, 59), (9, 5, 0), (12, 0, 0)];
